@@ -47,6 +47,9 @@ def _c11_case(c):
                     es.append({"kind": ek, "name": nm, "target": unhex(nxt())})
                 else:
                     es.append({"kind": ek, "name": unhex(nxt())})
+                tm = int(nxt())
+                if tm:
+                    es[-1]["time"] = tm
             pushes.append({"kind": "U", "title": title, "entries": es})
     return {"prep": prep, "pushes": pushes, "preserve": preserve}
 
@@ -98,7 +101,7 @@ def _c11_vm_goal(case, out):
             ents.append("(%s, NFile %d)" % (pth, ino))
             cont.append("(%d, %d%%N)" % (ino, tag * 1024 + 420))
             ino += 1
-    fs = "(mkFS %s %s %d [])" % (_vm_list(ents, "(path * node)"), _vm_list(cont, "(nat * N)"), ino)
+    fs = "(mkFS %s %s %d [] [] [])" % (_vm_list(ents, "(path * node)"), _vm_list(cont, "(nat * N)"), ino)
     ops = []
     for _ in range(int(nxt())):
         k = nxt()
@@ -107,7 +110,7 @@ def _c11_vm_goal(case, out):
             ops.append("PBlob %s %d%%N" % (title, int(nxt())))
         else:
             title = _vm_hexstr(nxt())
-            es = []
+            es, tms = [], []
             for _ in range(int(nxt())):
                 ek = nxt()
                 if ek == "r":
@@ -122,22 +125,24 @@ def _c11_vm_goal(case, out):
                     es.append("%s %s %s" % ("EHard" if ek == "h" else "ESym", nm, _vm_hexstr(nxt())))
                 else:
                     es.append("EOther %s" % _vm_hexstr(nxt()))
-            ops.append("PDir %s %s" % (title, _vm_list(es, "entry")))
+                tms.append("%d%%N" % int(nxt()))
+            ops.append("PDir %s %s %s" % (title, _vm_list(tms, "N"), _vm_list(es, "entry")))
     verdicts, _, listing = out.partition("|")
     oks = _vm_list(["true" if c == "O" else "false" for c in verdicts], "bool")
     paths, views = [], []
     for item in (listing.split(",") if listing else []):
         hp, _, v = item.partition(":")
+        v, _, st = v.partition("@")
         paths.append(_vm_path(unhex(hp)))
         if v[0] == "d":
-            views.append("VDir %s%%N" % v[1:])
+            views.append("VDir %s%%N %d%%N" % (v[1:], int(st or 0)))
         elif v[0] == "f":
             tg, _, m = v[1:].partition("m")
-            views.append("VFile %d%%N" % (int(tg) * 1024 + int(m)))
+            views.append("VFile %d%%N %d%%N" % (int(tg) * 1024 + int(m), int(st or 0)))
         else:
             views.append("VSym %s" % _vm_hexstr(v[1:]))
-    return ("let r := pushes %s %s %s %s (mkStore %s []) %s in\n  (snd r, map (view_at (st_fs (fst r))) %s, length (ents (st_fs (fst r))))\n  = (%s, %s, %d)"
-            % (g, pres, wd, cwd, fs, _vm_list(ops, "pushop"), _vm_list(paths, "path"), oks, _vm_list(views, "view"), len(paths)))
+    return ("let r := pushes %s %s %s %s (mkStore %s []) %s in\n  (snd r, map (vw %s (st_fs (fst r))) %s, length (ents (st_fs (fst r))))\n  = (%s, %s, %d)"
+            % (g, pres, wd, cwd, fs, _vm_list(ops, "pushop"), wd, _vm_list(paths, "path"), oks, _vm_list(views, "view"), len(paths)))
 
 
 def _c11_vm_sample(d, tier, coq, build):
@@ -159,7 +164,13 @@ def _c11_vm_sample(d, tier, coq, build):
     os.makedirs(vdir, exist_ok=True)
     vf = os.path.join(vdir, "C11_cases.v")
     with open(vf, "w") as f:
-        f.write("From Oras Require Import Base.Prelude Model.FileConfine.\n")
+        f.write("From Oras Require Import Base.Prelude Model.FileConfine.\n"
+                "(* the runner prints the time last set only for objects outside the working directory *)\n"
+                "Definition vw (wd : path) (f : fsys) (p : path) : view :=\n"
+                "  match view_at f p with\n"
+                "  | VDir m t => VDir m (if inside wd p then 0%N else t)\n"
+                "  | VFile c t => VFile c (if inside wd p then 0%N else t)\n"
+                "  | v => v end.\n")
         for i, g in goals:
             f.write("\n(* %s *)\nGoal %s.\nProof. vm_compute. reflexivity. Qed.\n" % (i, g))
     p = subprocess.run(["coqc", "-R", coq, "Oras", "-w", "-notation-overridden", vf], cwd=vdir, timeout=1500,
